@@ -35,7 +35,7 @@ def judge_stream(c, src, seq, pre_stream, pre_covered, emitted, bad):
     seg = eff_seg(c)
     for d in emitted:
         t = d["T"]
-        want = dict(src=[c["idv_s"], w], dst=[c["idv_d"], w], seq=[seq + c["seq0"], c["seqw"]], mode="ACKNOWLEDGED" if c["mode"] == "ack" else "UNACKNOWLEDGED",
+        want = dict(src=[c["idv_s"], w], dst=[c["idv_d"], w], seq=[seq + c["seq0"], c["seqw"]], mode="ACKNOWLEDGED" if core.eff_mode(c) == "ack" else "UNACKNOWLEDGED",
                     crc="WITH_CRC" if c["crc_flag"] else "NO_CRC", dir="TOWARDS_RECEIVER", large="NORMAL")
         for k, val in want.items():
             if d[k] != val:
@@ -49,7 +49,7 @@ def judge_stream(c, src, seq, pre_stream, pre_covered, emitted, bad):
                 bad("C07.order", f"Metadata PDU emitted after {stream}", T=t)
             exp = dict(size=size, sname=None if c["md_only"] else c.get("_sname", core.SRC_PATH),
                        dname=None if c["md_only"] else core.dest_path_requested(c),
-                       cks="NULL_CHECKSUM" if c["md_only"] else core.CKS[c["cks"]].name, closure=c["closure"])
+                       cks="NULL_CHECKSUM" if c["md_only"] else core.CKS[c["cks"]].name, closure=core.eff_closure(c))
             for k, val in exp.items():
                 if d[k] != val:
                     bad("C07.metadata", f"Metadata field {k} = {d[k]!r}, expected {val!r}", field=k)
@@ -147,7 +147,7 @@ class C07World(SrcWorld):
         stream = st.m["stream"]
         nseg = 0 if c["md_only"] or not st.src else -(-len(st.src) // eff_seg(c))
         want = ["MD"] + ([] if c["md_only"] else ["FD"] * nseg + ["EOF"])
-        if c["mode"] == "ack" and (not c["md_only"] or c["closure"]):
+        if core.eff_mode(c) == "ack" and (not c["md_only"] or core.eff_closure(c)):
             want.append("ACK")
         v = []
         if stream != want:
@@ -384,6 +384,9 @@ def configs(tier):
     # closure, metadata only
     for mode, closure, md in itertools.product(("unack", "ack"), (False, True), (False, True)):
         add(mode=mode, closure=closure, md_only=md, size=0 if md else 3, seg=2)
+    # request-level mode / closure against the MIB defaults: all 2 x 3 x 2 x 3 combinations ("none" = the request leaves it to the MIB)
+    for mode, rmode, closure, rclosure, md in itertools.product(("unack", "ack"), ("none", "unack", "ack"), (False, True), ("none", False, True), (False, True)):
+        add(mode=mode, req_mode=rmode, closure=closure, req_closure=rclosure, md_only=md, size=0 if md else 3, seg=2)
     if True:  # both tiers (the whole product takes seconds)
         for L, crc, cks, mode, closure in itertools.product((1, 2, 3, 4), (False, True), ("crc32", "crc32c", "mod", "null"), ("unack", "ack"), (False, True)):
             for size in sizes_for(L):
